@@ -41,7 +41,7 @@ ANCHORS = [
     ('pjrpc/client/retry.py', 'retry'), ('pjrpc/client/retry.py', 'retry_async'),
 ]
 FLOORS = {'*': {'pair:dispatch-text': 3000, 'pair:dispatch-plain-vs-coroutine': 3000, 'pair:middleware': 500, 'pair:retry': 500,
-                'pair:notation': 300, 'pair:match': 300, 'pair:notification-body': 150, 'pair:batch-object-reused': 30, 'pair:call-answered-with-an-odd-body': 100, 'pair:httpx-backends': 200, 'retry:with-tracers': 200, 'retry:retried': 200, 'pair:trace': 300,
+                'pair:notation': 300, 'notation:application-encoder-writes-the-request-objects': 100, 'pair:match': 300, 'pair:notification-body': 150, 'pair:batch-object-reused': 30, 'pair:call-answered-with-an-odd-body': 100, 'pair:httpx-backends': 200, 'httpx-backends:non-ascii-body-bytes': 50, 'retry:with-tracers': 200, 'retry:retried': 200, 'pair:trace': 300,
                 'middleware:failing-with-handlers': 100}}
 
 
@@ -241,12 +241,27 @@ def run_trace(ctx, n_tracers, attempts, script, kind, supplied_ctx):
     ctx.ok('trace', cls, sample={'script': script, 'kind': kind, 'tracers': n_tracers, 'events': obs[False]['events']})
 
 
-def run_notation(ctx, calls, notation, strict, base):
+class _MetaEncoder(pjrpc.common.JSONEncoder):
+    """an application encoder that writes the request objects itself (every request gets a `meta` member) - the hook the
+    library's own encoder uses"""
+
+    def default(self, o):
+        if isinstance(o, v20.BatchRequest):
+            return [dict(r.to_json(), meta='Zq7') for r in o]
+        if isinstance(o, v20.Request):
+            return dict(o.to_json(), meta='Zq7')
+        return super().default(o)
+
+
+def run_notation(ctx, calls, notation, strict, base, codec='default'):
     obs = {}
     error_cls = c07.CustomBase if base == 'custom' else JsonRpcError
     for is_async in (False, True):
         w = serverside.get_world(is_async, None)
         client = c07.make_client(is_async, w, 'sequential', strict, error_cls)
+        if codec == 'encoder-writes-requests':
+            client.json_encoder = _MetaEncoder
+            ctx.hit('notation:application-encoder-writes-the-request-objects')
         client._vmon_reset = w.log.clear
         w.log.clear()
         cs = [list(c) + [False] if len(c) == 3 else list(c) for c in calls]
@@ -264,10 +279,10 @@ def run_notation(ctx, calls, notation, strict, base):
         obs[is_async] = {'wire': wire, 'outcome': norm_out(st, v) if st == 'exc' else ['ret', repr(v)],
                          'executions': serverside.normalise_calls(w.log.calls)}
     ctx.hit('pair:notation')
-    cls = (json.dumps(calls, default=str), notation, strict, base)
+    cls = (json.dumps(calls, default=str), notation, strict, base, codec)
     for aspect in ('wire', 'outcome', 'executions'):
         if obs[False][aspect] != obs[True][aspect]:
-            ctx.violation(f'client-halves-differ:{aspect}:{notation}', 'notation', cls, calls=calls, notation=notation,
+            ctx.violation(f'client-halves-differ:{aspect}:{notation}' + ('' if codec == 'default' else ':' + codec), 'notation', cls, codec=codec, calls=calls, notation=notation,
                           sync=obs[False][aspect], asynchronous=obs[True][aspect])
             return
     ctx.ok('notation:' + notation, cls, sample={'calls': calls, 'notation': notation, 'observation': obs[False]})
@@ -354,6 +369,10 @@ RESPONSE_TYPES = ['application/json', 'application/json; charset=utf-8', 'Applic
                   'text/plain', 'text/html; charset=utf-8', '', None, 'application/problem+json', ' application/json']
 
 
+BYTE_PAYLOADS = {'bytes:utf8-non-ascii': 'caf\u00e9 \u20ac'.encode(), 'bytes:latin1': b'caf\xe9', 'bytes:truncated-multibyte': b'caf\xc3',
+                 'bytes:lone-continuation': b'a\x80b'}
+
+
 def run_backend_pair(ctx, content_type, status, body_kind, request_kind):
     """the library's own httpx backends (sync Client / AsyncClient) against one scripted HTTP peer: what the answer's
     status, media type and body make of a call is the same on both halves"""
@@ -370,6 +389,11 @@ def run_backend_pair(ctx, content_type, status, body_kind, request_kind):
             content = b''
         elif body_kind == 'garbage':
             content = b'<html>oops</html>'
+        elif body_kind in BYTE_PAYLOADS:
+            # a JSON document whose string payload is (or is not) valid in the charset the answer declares / defaults to
+            def one(i):
+                return b'{"jsonrpc": "2.0", "id": ' + json.dumps(i).encode() + b', "result": "' + BYTE_PAYLOADS[body_kind] + b'"}'
+            content = (b'[' + b', '.join(one(r['id']) for r in req if 'id' in r) + b']') if isinstance(req, list) else one((req or {}).get('id'))
         elif isinstance(req, list):
             content = json.dumps([{'jsonrpc': '2.0', 'id': r['id'], 'result': 'r'} for r in req if 'id' in r]).encode()
         elif body_kind == 'error':
@@ -404,6 +428,8 @@ def run_backend_pair(ctx, content_type, status, body_kind, request_kind):
         except Exception:
             pass
     ctx.hit('pair:httpx-backends')
+    if body_kind in BYTE_PAYLOADS:
+        ctx.hit('httpx-backends:non-ascii-body-bytes')
     cls = (content_type, status, body_kind, request_kind)
     for aspect in ('outcome', 'tracer-events'):
         a, b = obs[False][aspect], obs[True][aspect]
@@ -544,6 +570,11 @@ def gen(ctx):
         for via_proxy in (False, True):
             for fail_first in (False, True):
                 yield 'batch-reuse', dict(program=program, via_proxy=via_proxy, fail_first=fail_first)
+    for ct in ('application/json', 'application/json; charset=utf-8', 'application/json; charset=latin-1', 'application/json; charset=ascii',
+               'application/json; charset=no-such-charset', 'Application/JSON;charset=ISO-8859-1'):
+        for body_kind in BYTE_PAYLOADS:
+            for rk in ('call', 'batch', 'notify'):
+                yield 'backend-pair', dict(content_type=ct, status=200, body_kind=body_kind, request_kind=rk)
     for ct in RESPONSE_TYPES:
         for status, body_kind in ((200, 'result'), (200, 'error'), (200, 'empty'), (200, 'garbage'), (500, 'result'), (404, 'garbage')):
             for rk in ('call', 'batch', 'notify'):
@@ -565,7 +596,8 @@ def gen(ctx):
         for notation in c07.NOTATIONS_SINGLE:
             k += 1
             if full or k % 3 == 0:
-                yield 'notation', dict(calls=[c], notation=notation, strict=bool(k % 4), base='custom' if k % 3 == 0 else 'default')
+                yield 'notation', dict(calls=[c], notation=notation, strict=bool(k % 4), base='custom' if k % 3 == 0 else 'default',
+                                       codec='encoder-writes-requests' if k % 5 == 0 else 'default')
     for _ in range(50000 if deep else 4000):
         n = rng.randint(1, 4)
         notation = rng.choice(c07.NOTATIONS_BATCH)
@@ -574,7 +606,8 @@ def gen(ctx):
         if notation in ('add', 'chain', 'hand-built') and rng.random() < 0.4:
             for c in calls:
                 c[3] = rng.random() < 0.5
-        yield 'notation', dict(calls=calls, notation=notation, strict=rng.random() < 0.8, base=rng.choice(['default', 'custom']))
+        yield 'notation', dict(calls=calls, notation=notation, strict=rng.random() < 0.8, base=rng.choice(['default', 'custom']),
+                               codec='encoder-writes-requests' if rng.random() < 0.2 else 'default')
     # scripted response documents
     for kind, args in c08.gen(ctx):
         if kind == 'batch' and args.get('nonjson') is None and not args['notif_at'] and args.get('prior', 'none') == 'none':
